@@ -161,6 +161,7 @@ ToDict ==
 DropKey(k) ==
     /\ Step("DropKey")
     /\ exp # NoExp /\ k \in exp.keys
+    /\ (k = "version" => ~exp.v1)      \* only the current layout may omit "version": an old layout is recognised by it
     /\ exp' = [exp EXCEPT !.keys = @ \ {k}]
     /\ UNCHANGED <<ds, other, cm>>
     /\ hist' = Log([a |-> "DropKey", k |-> k, r |-> "ok"])
